@@ -2,15 +2,15 @@ import TantivyModel.Model.Faults
 /-! Helper lemmas for C11: invariants of the fault model. -/
 namespace TantivyModel.Faults
 
-theorem run_cons (sy : Bool) (cap : Nat) (F : Nat → Plan) (i : Nat) (s : St) (c : Call) (cs : List Call) :
-    run sy cap F i s (c :: cs) =
-      ((run sy cap F (i + 1) (call sy cap (F i) s c).1 cs).1,
-       (call sy cap (F i) s c).2 :: (run sy cap F (i + 1) (call sy cap (F i) s c).1 cs).2) := rfl
+theorem run_cons (sy : Bool) (fx : Fixes) (cap : Nat) (F : Nat → Plan) (i : Nat) (s : St) (c : Call) (cs : List Call) :
+    run sy fx cap F i s (c :: cs) =
+      ((run sy fx cap F (i + 1) (call sy fx cap (F i) s c).1 cs).1,
+       (call sy fx cap (F i) s c).2 :: (run sy fx cap F (i + 1) (call sy fx cap (F i) s c).1 cs).2) := rfl
 
 /-- an invariant of single calls is an invariant of runs -/
-theorem run_inv (P : St → Prop) (sy : Bool) (cap : Nat)
-    (hstep : ∀ f s c, P s → P (call sy cap f s c).1)
-    (F : Nat → Plan) (i : Nat) (s : St) (cs : List Call) (h : P s) : P (run sy cap F i s cs).1 := by
+theorem run_inv (P : St → Prop) (sy : Bool) (fx : Fixes) (cap : Nat)
+    (hstep : ∀ f s c, P s → P (call sy fx cap f s c).1)
+    (F : Nat → Plan) (i : Nat) (s : St) (cs : List Call) (h : P s) : P (run sy fx cap F i s cs).1 := by
   induction cs generalizing i s with
   | nil => exact h
   | cons c cs ih => rw [run_cons]; exact ih (i + 1) _ (hstep _ _ _ h)
